@@ -51,6 +51,14 @@ PROPS = {
         "assumptions": ["sort.Slice returns a sorted permutation of its input (modelled by List.mergeSort; the result is unique because relLess is a total order)",
                         "Go map with Rel keys is a set of Rel values (modelled by a duplicate-free list)"],
     },
+    "C17": {
+        "theorems": ["C17_soft_refines", "C17_wrapped_refines", "C17_indistinguishable", "C17_fresh", "C17_equal_refl",
+                     "C17_equal_symm", "C17_equal_sound", "C17_equal_names_counterexample", "C17_equalStrict_id"],
+        "suites": [("resource", 1200, 40000)],
+        "level_text": "Refinement by induction over every history of well-typed Set calls: a SoftResource (through check()'s materialisation and pruning) and a wrapped struct (through the struct-field model, for the struct a user declares for the type) both read back, up to the canonical reading (typed/untyped nil, nil/empty byte string), the abstract map 'last value set, else the kind's zero' (C17_soft_refines, C17_wrapped_refines), hence are indistinguishable (C17_indistinguishable); fresh resources have the type's name, fields and zeros (C17_fresh). Equal is reflexive and symmetric, EqualStrict adds the ID, and Equal is sound for type name, relationship names and all values. PARTIAL (known finding C17-equal-attr-names): Equal never compares attribute names - kept as C17_equal_statement, refuted by C17_equal_names_counterexample, and the harness replays the witness. Correspondence drives both implementations side by side with the same histories and compares full views after every call; the Go side checks read-back against its own abstract map.",
+        "level_note": "Trusted: Lean kernel; standard axioms; mirrors of soft_resource.go (check/Get/Set), wrapper.go (getField/setField/Get/Set), resource.go Equal/EqualStrict validated by correspondence; fmt %T type names tabulated; reflect.DeepEqual modelled as structural equality of the value model (identity of *time.Location is not modelled: equality cases use UTC times). Domain: field names are not 'id' (Get('id') is the resource ID) and, for wrapped structs, the type is declarable as a struct (Spec.structable).",
+        "assumptions": ["reflect.DeepEqual on the 30 value types = structural equality of GoVal", "fmt %T names as tabulated"],
+    },
     "C20": {
         "theorems": ["C20_reject", "C20_accept_build", "C20_type_exact", "C20_accept_safe", "C20_zero_WT", "C20_fields_not_ID"],
         "facts": ["Facts.checkAttrTypes: the attribute type names accepted by Check, regenerated (checkAttrTypes_iff is a decide-checked obligation)"],
